@@ -100,7 +100,13 @@ func (x *wrkExec) do(g string, op WOp) {
 		ctl.Gate("drv.call")
 		r.Call(g, "Wait")
 		p := safeCall(func() { x.w.Wait() })
-		r.Ret(g, "Wait", "r", cls(nil, p), "msg", p)
+		// controlled mode: nothing else runs between Wait's unlock and this line, so the worker count read here is
+		// the count Wait returned with (-1 = not observed, in free-running mode)
+		cnt := -1
+		if x.e.Mode == "c" {
+			cnt, _, _ = bigbuff.VerifWorkersState(x.w)
+		}
+		r.Ret(g, "Wait", "r", cls(nil, p), "msg", p, "count", cnt)
 	case "count":
 		ctl.Gate("drv.call")
 		r.Call(g, "Count")
@@ -117,6 +123,23 @@ func genWrkScenario(rng *rand.Rand, profile, mode string) any {
 		nd, nops = 3+rng.Intn(3), 3+rng.Intn(5)
 	}
 	id := 0
+	if rng.Intn(100) < 40 {
+		// shape: Wait (and Count) racing the exit of the last worker and the arrival of new calls
+		sc.Drivers = [][]WOp{
+			{{K: "call", ID: 1, N: 1 + rng.Intn(2), Gated: true}},
+			{{K: "nop", N: rng.Intn(6)}, {K: "wait"}, {K: "count"}},
+			{{K: "nop", N: rng.Intn(8)}, {K: "release", ID: 1}},
+			{{K: "nop", N: rng.Intn(10)}, {K: "call", ID: 2, N: 1 + rng.Intn(2), Gated: rng.Intn(2) == 0}},
+		}
+		if rng.Intn(2) == 0 {
+			sc.Drivers = append(sc.Drivers, []WOp{{K: "nop", N: rng.Intn(6)}, {K: "wait"}})
+		}
+		if rng.Intn(2) == 0 {
+			sc.Drivers = append(sc.Drivers, []WOp{{K: "nop", N: rng.Intn(10)}, {K: "call", ID: 3, N: 1, Gated: false}, {K: "release", ID: 2}})
+		}
+		sc.NIDs = 5
+		return sc
+	}
 	for d := 0; d < nd; d++ {
 		var ops []WOp
 		for i := 0; i < nops; i++ {
@@ -205,7 +228,8 @@ func cmdWorkers(args map[string]string) {
 			json.Unmarshal(b, &sc)
 			return &sc
 		},
-		run:  runWrkExec,
-		reps: 4,
+		run:   runWrkExec,
+		reps:  4,
+		small: func(sc any) bool { return true },
 	}, args)
 }
